@@ -11,7 +11,8 @@ T4    : gen/scope_iterorder.py scans compiler.py, idtracking.py, meta.py, nodes.
 tie / oracle: generated templates (statement trees of the C03 generator + text templates with
         tuple unpacking, branch stores, imports, macros with special parameters, many filters and
         tests, includes and scoped blocks inside loops) compiled with Environment.compile(raw=True)
-        in subprocesses under 4 (quick) / 16 PYTHONHASHSEED values: byte-identical source.
+        in subprocesses under 4 (quick) / 16 PYTHONHASHSEED values, in sync, async, sandboxed, native and
+        async+sandboxed environments: byte-identical source.
 """
 import hashlib
 import json
@@ -21,17 +22,24 @@ from . import scope_gen as G
 
 RULE = ("templates: statement trees of the C03 generator (all constructs) and text templates built from multi-target "
         "assignments, stores in if-branches, from-imports, macros using varargs / kwargs / caller, filter and test "
-        "chains, includes / scoped blocks inside loops, over a pool of 14 identifiers; each compiled under every hash "
-        "seed; distinct = template source; non-trivial = the generated source contains a multi-name update "
+        "chains, includes / scoped blocks inside loops, tuple assignments to several namespace objects, over a pool of 14 "
+        "identifiers; each compiled in sync mode and half of them also with the async / sandboxed / native / "
+        "async+sandboxed code generators, under every hash seed; distinct = (mode, template source); non-trivial = the generated source contains a multi-name update "
         "(context.vars.update / exported_vars.update / _loop_vars.update / _block_vars.update), at least two "
         "filter/test dependency blocks, or a derived context with at least two stores.")
 
 CHILD = r"""
 import sys, json, hashlib
-import jinja2
-env = jinja2.Environment(extensions=["jinja2.ext.loopcontrols", "jinja2.ext.do"])
+import jinja2, jinja2.sandbox, jinja2.nativetypes
+EXT = ["jinja2.ext.loopcontrols", "jinja2.ext.do"]
+ENVS = {"sync": jinja2.Environment(extensions=EXT),
+        "async": jinja2.Environment(extensions=EXT, enable_async=True),
+        "sandbox": jinja2.sandbox.SandboxedEnvironment(extensions=EXT),
+        "native": jinja2.nativetypes.NativeEnvironment(extensions=EXT),
+        "async_sandbox": jinja2.sandbox.SandboxedEnvironment(extensions=EXT, enable_async=True)}
 out = []
-for src in json.load(sys.stdin):
+for mode, src in json.load(sys.stdin):
+    env = ENVS[mode]
     try:
         code = env.compile(src, raw=True)
         code2 = env.compile(src, raw=True)
@@ -49,9 +57,14 @@ json.dump(out, sys.stdout)
 
 CHILD_SRC = r"""
 import sys, json
-import jinja2
-env = jinja2.Environment(extensions=["jinja2.ext.loopcontrols", "jinja2.ext.do"])
-src = json.load(sys.stdin)
+import jinja2, jinja2.sandbox, jinja2.nativetypes
+EXT = ["jinja2.ext.loopcontrols", "jinja2.ext.do"]
+mode, src = json.load(sys.stdin)
+env = {"sync": lambda: jinja2.Environment(extensions=EXT),
+       "async": lambda: jinja2.Environment(extensions=EXT, enable_async=True),
+       "sandbox": lambda: jinja2.sandbox.SandboxedEnvironment(extensions=EXT),
+       "native": lambda: jinja2.nativetypes.NativeEnvironment(extensions=EXT),
+       "async_sandbox": lambda: jinja2.sandbox.SandboxedEnvironment(extensions=EXT, enable_async=True)}[mode]()
 try:
     print(env.compile(src, raw=True))
 except Exception as e:
@@ -72,7 +85,17 @@ class TextGen:
 
     def piece(self, depth=2):
         r = self.r
-        k = r.randrange(11)
+        k = r.randrange(13)
+        if k == 11:
+            # one assignment whose tuple target refers to several namespace objects (and plain names)
+            xs = self.ids(r.randint(2, 4))
+            tg = [x + "." + r.choice(["u", "v", "w"]) if r.random() < 0.75 else x for x in xs]
+            pre = "".join("{% set " + x + " = namespace() %}" for x in xs if r.random() < 0.5)
+            return pre + "{% set " + ", ".join(tg) + " = " + ", ".join(str(i) for i in range(len(tg))) + " %}"
+        if k == 12:
+            xs = self.ids(r.randint(2, 3))
+            body = "{% set " + ", ".join(x + ".n" for x in xs) + " = " + ", ".join(x + ".n" for x in reversed(xs)) + " %}"
+            return "{% for i in " + r.choice(IDS) + " %}" + body + "{% endfor %}"
         if k == 0:
             xs = self.ids(r.randint(2, 4))
             return "{% set " + ", ".join(xs) + " = " + r.choice(IDS) + " %}"
@@ -128,35 +151,39 @@ def compile_under_seeds(srcs, seeds):
     return res
 
 
-def source_under_seed(src, sd):
-    rc, out, err = lib.impl_python(CHILD_SRC, inp=json.dumps(src), hashseed=sd, timeout=120)
+def source_under_seed(item, sd):
+    rc, out, err = lib.impl_python(CHILD_SRC, inp=json.dumps(item), hashseed=sd, timeout=120)
     return out
 
 
+MODES = ["sync", "async", "sandbox", "native", "async_sandbox"]
+
+
 def judge(ctx, srcs, seeds, kind):
+    """srcs: list of (mode, source)"""
     res = compile_under_seeds(srcs, seeds)
     bad = 0
-    for i, src in enumerate(srcs):
+    for i, (mode, src) in enumerate(srcs):
         row = [res[sd][i] for sd in seeds]
         digests = {r[0] for r in row}
         flags = row[0][1] if isinstance(row[0][1], int) else 0
         ok_compile = not row[0][0].startswith("ERR") and row[0][0] != "DIFF-IN-PROCESS"
-        ctx.case(sample={"src": src, "seeds": list(seeds), "sha256": row[0][0][:16]} if flags and len(src) > 80 else None,
-                 key=src if (flags and ok_compile) else None)
-        ctx.count(kind + ("_compiled" if ok_compile else "_" + row[0][0].split(":")[-1]))
+        ctx.case(sample={"src": src, "mode": mode, "seeds": list(seeds), "sha256": row[0][0][:16]} if flags and len(src) > 80 else None,
+                 key=(mode, src) if (flags and ok_compile) else None)
+        ctx.count(kind + "_" + mode + ("_compiled" if ok_compile else "_" + row[0][0].split(":")[-1]))
         if len(digests) == 1 and row[0][0] != "DIFF-IN-PROCESS":
             ctx.validated()
             continue
         bad += 1
         if bad <= 3:
             a, b = seeds[0], next(sd for sd in seeds if res[sd][i][0] != row[0][0]) if len(digests) > 1 else seeds[0]
-            sa, sb = source_under_seed(src, a).split("\n"), source_under_seed(src, b).split("\n")
-            diff = [(x, y) for x, y in zip(sa, sb) if x != y][:3]
-            ctx.reject({"src": src, "seeds": [a, b]},
+            sa, sb = source_under_seed([mode, src], a).split("\n"), source_under_seed([mode, src], b).split("\n")
+            diff = [(x[:160], y[:160]) for x, y in zip(sa, sb) if x != y][:3]
+            ctx.reject({"src": src, "mode": mode, "seeds": [a, b]},
                        f"generated source differs between PYTHONHASHSEED={a} and {b}: {diff!r}" if len(digests) > 1
                        else "two compilations in one process differ", None)
         else:
-            ctx.reject({"src": src, "seeds": list(seeds)}, "generated source depends on the hash seed", None)
+            ctx.reject({"src": src, "mode": mode, "seeds": list(seeds)}, "generated source depends on the hash seed", None)
     return bad
 
 
@@ -197,8 +224,19 @@ def run(ctx):
     for i in range(ctx.size(500, 6000)):
         g = G.SGen(rng, size=rng.randint(4, ctx.size(12, 25)), pool=["a", "b", "c", "n", "zeta", "q9"])
         trees.append(G.p_src(g.program()))
-    judge(ctx, texts, seeds, "text")
-    judge(ctx, trees, seeds, "tree")
+    # every template in sync mode; every 2nd also in one of the other code-generation modes
+    # (async, sandboxed, native, async + sandboxed); the first ones in all modes
+    def with_modes(srcs):
+        out = []
+        for i, src in enumerate(srcs):
+            out.append(("sync", src))
+            if i < 40:
+                out += [(m, src) for m in MODES[1:]]
+            elif i % 2 == 0:
+                out.append((MODES[1 + (i // 2) % 4], src))
+        return out
+    judge(ctx, with_modes(texts), seeds, "text")
+    judge(ctx, with_modes(trees), seeds, "tree")
 
 
 def replay(ctx, data):
@@ -207,7 +245,7 @@ def replay(ctx, data):
         print("replay: this file names a broken theorem / obligation, not an input:", data.get("broken"))
         return run(ctx)
     seeds = case.get("seeds") or [0, 1, 7, 42]
-    outs = {sd: source_under_seed(case["src"], sd) for sd in seeds}
+    outs = {sd: source_under_seed([case.get("mode", "sync"), case["src"]], sd) for sd in seeds}
     for sd in seeds:
         print(f"seed {sd}: sha256 {hashlib.sha256(outs[sd].encode()).hexdigest()[:16]}")
     if len(set(outs.values())) > 1:
